@@ -105,6 +105,73 @@ containment_geometry!(c17_containment_9_7, 9, 7);
 // @verif prop=C17 id=O17.1/20-3 tier=thorough harness=c17_containment_20_3 unwind=9 bound="geometry (20,3)" fns="reg2bin"
 containment_geometry!(c17_containment_20_3, 20, 3);
 
+
+// thorough: geometry grid (min_shift x depth), every instance decides ALL intersecting interval pairs
+// @verif prop=C17 id=O17.1/grid-2-1 tier=thorough harness=c17_containment_grid_2_1 unwind=9 bound="geometry (min_shift 2, depth 1), all intersecting interval pairs" fns="reg2bin"
+containment_geometry!(c17_containment_grid_2_1, 2, 1);
+// @verif prop=C17 id=O17.1/grid-4-1 tier=thorough harness=c17_containment_grid_4_1 unwind=9 bound="geometry (min_shift 4, depth 1), all intersecting interval pairs" fns="reg2bin"
+containment_geometry!(c17_containment_grid_4_1, 4, 1);
+// @verif prop=C17 id=O17.1/grid-8-1 tier=thorough harness=c17_containment_grid_8_1 unwind=9 bound="geometry (min_shift 8, depth 1), all intersecting interval pairs" fns="reg2bin"
+containment_geometry!(c17_containment_grid_8_1, 8, 1);
+// @verif prop=C17 id=O17.1/grid-14-1 tier=thorough harness=c17_containment_grid_14_1 unwind=9 bound="geometry (min_shift 14, depth 1), all intersecting interval pairs" fns="reg2bin"
+containment_geometry!(c17_containment_grid_14_1, 14, 1);
+// @verif prop=C17 id=O17.1/grid-16-1 tier=thorough harness=c17_containment_grid_16_1 unwind=9 bound="geometry (min_shift 16, depth 1), all intersecting interval pairs" fns="reg2bin"
+containment_geometry!(c17_containment_grid_16_1, 16, 1);
+// @verif prop=C17 id=O17.1/grid-1-2 tier=thorough harness=c17_containment_grid_1_2 unwind=9 bound="geometry (min_shift 1, depth 2), all intersecting interval pairs" fns="reg2bin"
+containment_geometry!(c17_containment_grid_1_2, 1, 2);
+// @verif prop=C17 id=O17.1/grid-4-2 tier=thorough harness=c17_containment_grid_4_2 unwind=9 bound="geometry (min_shift 4, depth 2), all intersecting interval pairs" fns="reg2bin"
+containment_geometry!(c17_containment_grid_4_2, 4, 2);
+// @verif prop=C17 id=O17.1/grid-8-2 tier=thorough harness=c17_containment_grid_8_2 unwind=9 bound="geometry (min_shift 8, depth 2), all intersecting interval pairs" fns="reg2bin"
+containment_geometry!(c17_containment_grid_8_2, 8, 2);
+// @verif prop=C17 id=O17.1/grid-14-2 tier=thorough harness=c17_containment_grid_14_2 unwind=9 bound="geometry (min_shift 14, depth 2), all intersecting interval pairs" fns="reg2bin"
+containment_geometry!(c17_containment_grid_14_2, 14, 2);
+// @verif prop=C17 id=O17.1/grid-16-2 tier=thorough harness=c17_containment_grid_16_2 unwind=9 bound="geometry (min_shift 16, depth 2), all intersecting interval pairs" fns="reg2bin"
+containment_geometry!(c17_containment_grid_16_2, 16, 2);
+// @verif prop=C17 id=O17.1/grid-1-3 tier=thorough harness=c17_containment_grid_1_3 unwind=9 bound="geometry (min_shift 1, depth 3), all intersecting interval pairs" fns="reg2bin"
+containment_geometry!(c17_containment_grid_1_3, 1, 3);
+// @verif prop=C17 id=O17.1/grid-2-3 tier=thorough harness=c17_containment_grid_2_3 unwind=9 bound="geometry (min_shift 2, depth 3), all intersecting interval pairs" fns="reg2bin"
+containment_geometry!(c17_containment_grid_2_3, 2, 3);
+// @verif prop=C17 id=O17.1/grid-4-3 tier=thorough harness=c17_containment_grid_4_3 unwind=9 bound="geometry (min_shift 4, depth 3), all intersecting interval pairs" fns="reg2bin"
+containment_geometry!(c17_containment_grid_4_3, 4, 3);
+// @verif prop=C17 id=O17.1/grid-8-3 tier=thorough harness=c17_containment_grid_8_3 unwind=9 bound="geometry (min_shift 8, depth 3), all intersecting interval pairs" fns="reg2bin"
+containment_geometry!(c17_containment_grid_8_3, 8, 3);
+// @verif prop=C17 id=O17.1/grid-14-3 tier=thorough harness=c17_containment_grid_14_3 unwind=9 bound="geometry (min_shift 14, depth 3), all intersecting interval pairs" fns="reg2bin"
+containment_geometry!(c17_containment_grid_14_3, 14, 3);
+// @verif prop=C17 id=O17.1/grid-16-3 tier=thorough harness=c17_containment_grid_16_3 unwind=9 bound="geometry (min_shift 16, depth 3), all intersecting interval pairs" fns="reg2bin"
+containment_geometry!(c17_containment_grid_16_3, 16, 3);
+// @verif prop=C17 id=O17.1/grid-1-4 tier=thorough harness=c17_containment_grid_1_4 unwind=9 bound="geometry (min_shift 1, depth 4), all intersecting interval pairs" fns="reg2bin"
+containment_geometry!(c17_containment_grid_1_4, 1, 4);
+// @verif prop=C17 id=O17.1/grid-2-4 tier=thorough harness=c17_containment_grid_2_4 unwind=9 bound="geometry (min_shift 2, depth 4), all intersecting interval pairs" fns="reg2bin"
+containment_geometry!(c17_containment_grid_2_4, 2, 4);
+// @verif prop=C17 id=O17.1/grid-4-4 tier=thorough harness=c17_containment_grid_4_4 unwind=9 bound="geometry (min_shift 4, depth 4), all intersecting interval pairs" fns="reg2bin"
+containment_geometry!(c17_containment_grid_4_4, 4, 4);
+// @verif prop=C17 id=O17.1/grid-8-4 tier=thorough harness=c17_containment_grid_8_4 unwind=9 bound="geometry (min_shift 8, depth 4), all intersecting interval pairs" fns="reg2bin"
+containment_geometry!(c17_containment_grid_8_4, 8, 4);
+// @verif prop=C17 id=O17.1/grid-14-4 tier=thorough harness=c17_containment_grid_14_4 unwind=9 bound="geometry (min_shift 14, depth 4), all intersecting interval pairs" fns="reg2bin"
+containment_geometry!(c17_containment_grid_14_4, 14, 4);
+// @verif prop=C17 id=O17.1/grid-1-5 tier=thorough harness=c17_containment_grid_1_5 unwind=9 bound="geometry (min_shift 1, depth 5), all intersecting interval pairs" fns="reg2bin"
+containment_geometry!(c17_containment_grid_1_5, 1, 5);
+// @verif prop=C17 id=O17.1/grid-2-5 tier=thorough harness=c17_containment_grid_2_5 unwind=9 bound="geometry (min_shift 2, depth 5), all intersecting interval pairs" fns="reg2bin"
+containment_geometry!(c17_containment_grid_2_5, 2, 5);
+// @verif prop=C17 id=O17.1/grid-4-5 tier=thorough harness=c17_containment_grid_4_5 unwind=9 bound="geometry (min_shift 4, depth 5), all intersecting interval pairs" fns="reg2bin"
+containment_geometry!(c17_containment_grid_4_5, 4, 5);
+// @verif prop=C17 id=O17.1/grid-8-5 tier=thorough harness=c17_containment_grid_8_5 unwind=9 bound="geometry (min_shift 8, depth 5), all intersecting interval pairs" fns="reg2bin"
+containment_geometry!(c17_containment_grid_8_5, 8, 5);
+// @verif prop=C17 id=O17.1/grid-16-5 tier=thorough harness=c17_containment_grid_16_5 unwind=9 bound="geometry (min_shift 16, depth 5), all intersecting interval pairs" fns="reg2bin"
+containment_geometry!(c17_containment_grid_16_5, 16, 5);
+// @verif prop=C17 id=O17.1/grid-1-6 tier=thorough harness=c17_containment_grid_1_6 unwind=9 bound="geometry (min_shift 1, depth 6), all intersecting interval pairs" fns="reg2bin"
+containment_geometry!(c17_containment_grid_1_6, 1, 6);
+// @verif prop=C17 id=O17.1/grid-2-6 tier=thorough harness=c17_containment_grid_2_6 unwind=9 bound="geometry (min_shift 2, depth 6), all intersecting interval pairs" fns="reg2bin"
+containment_geometry!(c17_containment_grid_2_6, 2, 6);
+// @verif prop=C17 id=O17.1/grid-4-6 tier=thorough harness=c17_containment_grid_4_6 unwind=9 bound="geometry (min_shift 4, depth 6), all intersecting interval pairs" fns="reg2bin"
+containment_geometry!(c17_containment_grid_4_6, 4, 6);
+// @verif prop=C17 id=O17.1/grid-8-6 tier=thorough harness=c17_containment_grid_8_6 unwind=9 bound="geometry (min_shift 8, depth 6), all intersecting interval pairs" fns="reg2bin"
+containment_geometry!(c17_containment_grid_8_6, 8, 6);
+// @verif prop=C17 id=O17.1/grid-14-6 tier=thorough harness=c17_containment_grid_14_6 unwind=9 bound="geometry (min_shift 14, depth 6), all intersecting interval pairs" fns="reg2bin"
+containment_geometry!(c17_containment_grid_14_6, 14, 6);
+// @verif prop=C17 id=O17.1/grid-16-6 tier=thorough harness=c17_containment_grid_16_6 unwind=9 bound="geometry (min_shift 16, depth 6), all intersecting interval pairs" fns="reg2bin"
+containment_geometry!(c17_containment_grid_16_6, 16, 6);
+
 /// real reg2bins into a real BitVec == closed form, probe bit symbolic
 fn reg2bins_matches_closed_form(min_shift: u8, depth: u8) {
     let max_pos = (1usize << (min_shift as u32 + 3 * depth as u32)) - 1;
